@@ -571,7 +571,10 @@ impl<'a> Ctx<'a> {
                 }
             } else if sn.exists {
                 if let Some(b) = &rx.before[s] {
-                    let k = rx.prefix[s].min(b.len());
+                    // "elements before the affected index are unchanged" is promised for a forgotten
+                    // handle or iterator (C07) only; after a panic in user code, a storage failure or a
+                    // capacity overflow the promise is validity - leaking any element is permitted
+                    let k = if faulted == F_FORGET { rx.prefix[s].min(b.len()) } else { 0 };
                     if sn.tags.len() < k || sn.tags[..k] != b[..k] {
                         return Err(self.viol(
                             Class::RelaxedInvalid,
